@@ -350,6 +350,10 @@ fn check_state(root: &str, tag: &str, base: usize, path: &[Op], page: u64, divse
 			}
 			out.cases += 1;
 			let a = w.w("A");
+			if late_start {
+				// the scanned range (the tip block only) holds no output of the wallet: an empty block by the miner
+				let _ = w.mine_opts("M", false);
+			}
 			let start_h = if late_start { w.node.height() } else { 1 };
 			let case = json!({"divergences": ds, "delete_unconfirmed": delete_unconfirmed, "late_start": late_start});
 			let dname = format!("{}{}", ds.iter().map(|d| format!("{:?}", d)).collect::<Vec<_>>().join("+"), if late_start { "@late-start" } else { "" });
